@@ -52,7 +52,7 @@ def main():
     jobs = int(os.environ.get('SEED_JOBS', '3'))
     tier = os.environ.get('SEED_TIER', 'quick')
     results = json.load(open(RES)) if os.path.exists(RES) else {}
-    seeds = sorted(os.path.basename(d) for d in glob.glob('/verif/seeded/C*-[mn]*') if os.path.isdir(d))
+    seeds = sorted(os.path.basename(d) for d in glob.glob('/verif/seeded/C*-[mnp]*') if os.path.isdir(d))
     todo = [s for s in seeds if (not only or s in only or s.split('-')[0] in only)]
     slots = queue.Queue()
     for i in range(jobs):
